@@ -310,3 +310,5 @@ MUTANTS = [
 ]
 
 RENAME_FUNCS = [(F, n) for n in own.RETURNS_NEW]
+
+EXPLANATION += (' Additions: PAIR/merge-scalars definite form (a covering scalar copied from one input selected by another field), PAIR/recomputed-total shared with C10.')
